@@ -213,7 +213,17 @@ export function snapshot(ge, parent, tr, opts = {}) {
       dsv: info ? info.dsv : undefined,
       children: [],
     }
-    node.childNodes.forEach((ch) => visit(ch, el.children))
+    let kids = node.childNodes
+    if (node instanceof ge.Component && node.getShadowRoot() && node.getShadowRoot().getSlotMode() === 3 /* SlotMode.Dynamic */) {
+      // content of dynamic slots: the host keeps it in creation order (a slot that moves does not move its content);
+      // what is rendered is the content of each slot, in the order of the slots -> compare in that order
+      const order = new Map()
+      const walkSlots = (n) => { if (n.childNodes === undefined) return; if (n._$slotName !== null && n._$slotName !== undefined) order.set(n, order.size); n.childNodes.forEach(walkSlots) }
+      node.getShadowRoot().childNodes.forEach(walkSlots)
+      const rank = (c) => (c.containingSlot && order.has(c.containingSlot) ? order.get(c.containingSlot) : order.size)
+      kids = [...kids].map((c, i) => [c, i]).sort((a, b) => rank(a[0]) - rank(b[0]) || a[1] - b[1]).map((x) => x[0])
+    }
+    kids.forEach((ch) => visit(ch, el.children))
     if (node instanceof ge.Component && node.is === 'cmp/x-a') el.props = Object.fromEntries(PROP_COMPONENT_PROPS.map((p) => [p, node.data[p]]))
     if (opts.shadow && node instanceof ge.Component) {
       el.shadow = snapshot(ge, node.getShadowRoot(), opts.shadowTrace ? opts.shadowTrace(node) : null, opts)
@@ -307,12 +317,13 @@ export function definePropComponent(ge, space) {
 
 /** `<d-s list="{{...}}">`: a dynamic-slots child (opts.dynSlotChild = its compiled group list) that renders its slot once
  *  per item of its `list` property, handing over the slot values `v` (item.v) and `i` (index). */
-export const DYN_SLOT_CHILD_SRC = '<block wx:for="{{list}}"><slot v="{{item.v}}" i="{{index}}"/></block>'
-export function defineDynSlotChild(ge, space, childGroups) {
+export const DYN_SLOT_CHILD_SRC = '<block wx:if="{{keyed}}"><block wx:for="{{list}}" wx:key="k"><slot v="{{item.v}}" i="{{index}}"/></block></block><block wx:else><block wx:for="{{list}}"><slot v="{{item.v}}" i="{{index}}"/></block></block>'
+export function defineDynSlotChild(ge, space, childGroups, keyed = false) {
   const ctr = new Trace()
   ctr.keep = false
   return space.defineComponent({
-    is: 'cmp/d-s',
+    is: keyed ? 'cmp/d-k' : 'cmp/d-s',
+    data: () => ({ keyed }),
     // (properties are copied on the way in, as by default: a list that the host mutates in place still arrives as a new value)
     options: { dynamicSlots: true, dataDeepCopy: ge.DeepCopyKind.None, propertyPassingDeepCopy: ge.DeepCopyKind.Simple },
     properties: { list: null },
@@ -323,7 +334,8 @@ export function defineDynSlotChild(ge, space, childGroups) {
 /** Create a root component from an instrumented template. */
 export function createRoot(ge, template, data, opts = {}) {
   const space = opts.space || new ge.ComponentSpace()
-  if (opts.dynSlotChild) opts = { ...opts, using: { ...(opts.using || {}), 'd-s': defineDynSlotChild(ge, space, opts.dynSlotChild).general() } }
+  // `<d-s>` iterates its list without a key, `<d-k>` with wx:key="k" (slots are then moved, inserted and removed anywhere)
+  if (opts.dynSlotChild) opts = { ...opts, using: { ...(opts.using || {}), 'd-s': defineDynSlotChild(ge, space, opts.dynSlotChild, false).general(), 'd-k': defineDynSlotChild(ge, space, opts.dynSlotChild, true).general() } }
   if (opts.propComponents) opts = { ...opts, using: { ...(opts.using || {}), [PROP_COMPONENT_TAG]: definePropComponent(ge, space).general() } }
   const def = space.defineComponent({
     options: { dataDeepCopy: ge.DeepCopyKind.None, propertyPassingDeepCopy: ge.DeepCopyKind.None, ...(opts.options || {}) },
